@@ -23,6 +23,7 @@ impl CssString {
             while let Some(c) = iter.next() {
                 if c == '\\' {
                     let mut val: u32 = 0;
+                    let mut digits = 0;
                     let mut got_num = false;
                     let nextchar = loop {
                         match iter.peek() {
@@ -31,8 +32,12 @@ impl CssString {
                                 break None;
                             }
                             Some(&c) => {
-                                if let Some(digit) = c.to_digit(16) {
+                                // An escape has at most six hex digits.
+                                if let Some(digit) =
+                                    c.to_digit(16).filter(|_| digits < 6)
+                                {
                                     val = val * 16 + digit;
+                                    digits += 1;
                                     got_num = true;
                                     iter.next();
                                 } else if !got_num {
